@@ -279,6 +279,10 @@ pub fn asleep_and_nobody_moves(skip: u32, samples: u32) -> Option<String> {
     )
 }
 
+pub fn sites_passed_by_all() -> u64 {
+    (0..MAX_THREADS).map(|t| T_SITES[t].load(Relaxed)).fold(0u64, |a, b| a.wrapping_add(b))
+}
+
 pub fn install() {
     vh::set_callback(Some(callback));
 }
